@@ -47,7 +47,7 @@ REQUIRED = ['halfnormal_moment_stats_nuts', 'halfnormal_moment_stats_metropolis'
             'met_replay_compared', 'met_trace_ok', 'nuts_chains', 'states_reevaluated_metropolis',
             'states_reevaluated_nuts', 'determinism_pairs_metropolis', 'determinism_pairs_nuts',
             'moment_stats_metropolis', 'moment_stats_nuts', 'moment_pooled_cases', 'target_evals_nan', 'target_evals_neginf',
-            'nuts_stepsize_searched', 'nuts_stepsize_given', 'nuts_iter_eq_adapt_plus_1']
+            'nuts_stepsize_searched', 'nuts_stepsize_given', 'nuts_iter_eq_adapt_plus_1', 'nuts_moments_without_adaptation']
 
 KINDS = ['met', 'met', 'met', 'nuts', 'met', 'metmom', 'met', 'nuts', 'met', 'nutsmom', 'nuts', 'met']
 FAMILIES = ['gauss', 'mix', 'box', 'half', 'flatbox', 'nanball', 'nanhalf']
@@ -480,6 +480,9 @@ def gen_met(rng, moments):
 
 def gen_nuts(rng, moments):
     spec = _tspec(rng, 'gauss' if moments else None, moments)
+    noadapt = bool(moments and rng.random() < 0.3)
+    if noadapt:
+        spec['scale'] = float(rng.choice([0.01, 0.003, 0.1, 30.0]))    # targets whose scale is not of order one
     tgt = Target(spec)
     d = tgt.d
     if moments:
@@ -489,6 +492,11 @@ def gen_nuts(rng, moments):
         max_depth = int(rng.choice([5, 5, 4, 6, 7]))
         stepsize = None if rng.random() < 0.6 else float(np.min(tgt.sd) * rng.uniform(0.1, 1.0))
         target_prob = float(rng.choice([0.6, 0.6, 0.5, 0.8]))
+        if noadapt:
+            # warm-up length 0 with a step size chosen by the user (a fraction of the narrowest direction of the target):
+            # nothing is adapted, the given step size must be the one that is used
+            n_adapt = 0
+            stepsize = float(math.sqrt(np.linalg.eigvalsh(tgt.C)[0]) * rng.uniform(0.3, 0.7))
     else:
         n = int(rng.choice([1, 2, 3, int(round(math.exp(rng.uniform(0, math.log(200))))), int(rng.integers(4, 120))]))
         n_adapt = rng.choice(['none', '0', 'n-1', 'n', 'third', 'more', 'rand'])
@@ -685,6 +693,8 @@ def run_case(ctx, case):
     else:
         ctx.event('nuts_chains')
         ctx.event('nuts_stepsize_given' if kw['stepsize'] is not None else 'nuts_stepsize_searched')
+        if case['kind'] == 'nutsmom' and kw['n_adapt'] == 0:
+            ctx.event('nuts_moments_without_adaptation')
         na = kw['n_adapt'] if kw['n_adapt'] is not None else kw['n'] // 2
         ctx.event('nuts_iter_eq_adapt_plus_1', kw['n'] == na + 1)
         if isinstance(chain, np.ndarray) and chain.ndim == 2 and len(chain):
